@@ -22,6 +22,7 @@ THEOREMS = [
     "C15_jfa_training_equivariant",
     "C15_isv_training_equivariant",
     "C15_ivector_training_equivariant",
+    "C15_ivector_mstep_sigma_equivariant",
 ]
 CORR_OPS = ["gmm_ll:transformed", "gmm_estep:transformed"]
 RULE = ("pairs (original, affinely transformed) of inputs: per-feature scales in +-[1e-3, 1e3] (negative and widely different magnitudes), "
@@ -107,7 +108,8 @@ def o_train(sc, trainer):
         else:
             ubm = gen.mk_gmm(sc["w"], m, v, thr=np.broadcast_to(fl, np.shape(v)).copy() if np.ndim(fl) else fl)
             # with the variance update on, one iteration only: the known finding (D3) would otherwise leak into the next iteration's weights and means
-            g = GMMMachine(sc["C"], trainer="map", ubm=ubm, max_fitting_steps=1 if sc.get("map_uv") else 2, convergence_threshold=None, update_variances=sc.get("map_uv", False), update_weights=True)
+            extra = {} if sc.get("map_thr") is None else {"mean_var_update_threshold": float(sc["map_thr"])}  # occupancies are unit-free: same threshold on both sides
+            g = GMMMachine(sc["C"], trainer="map", ubm=ubm, max_fitting_steps=1 if sc.get("map_uv") else 2, convergence_threshold=None, update_variances=sc.get("map_uv", False), update_weights=True, **extra)
         r = core.impl(lambda: g.fit(x))
         if isinstance(r, core.ImplError):
             return {"sig": f"training-raises:{trainer}", "what": repr(r)}
@@ -119,7 +121,10 @@ def o_train(sc, trainer):
         return {"sig": f"weights-not-invariant:{trainer}", "what": f"{w1.tolist()} vs {w0.tolist()}"}
     if not rel_close(m1, a * m0 + b, np.abs(a) * np.sqrt(v0), 1e-6):
         return {"sig": f"means-not-equivariant:{trainer}", "what": f"{m1.tolist()} vs a*mu+b {(a * m0 + b).tolist()}"}
-    if not rel_close(v1, a * a * v0, a * a * v0, 1e-5):
+    # a component holding (effectively) one sample has a variance that is pure cancellation noise of E[x^2] - mean^2
+    # (1e-8 of the feature's scale): such entries are compared against the feature's scale instead of against themselves
+    vscale = np.maximum(a * a * v0, 1e-6 * np.max(a * a * v0, axis=0, keepdims=True))
+    if not rel_close(v1, a * a * v0, vscale, 1e-5):
         sig = KNOWN_SIG if (trainer == "map") else f"variances-not-equivariant:{trainer}"
         return {"sig": sig, "what": f"{trainer}: variances {v1.tolist()} vs a^2*var {(a * a * v0).tolist()}"}
     return None
@@ -228,6 +233,13 @@ def search(ctx):
         if kind == "loglik":
             add(o_loglik(sc), {"kind": kind, **sc})
         elif kind in ("ml", "map"):
+            if kind == "map":
+                sc["map_thr"] = [None, 1.0, 0.3, 3.0][int(ctx.rng.integers(0, 4))]  # components with less than that many frames keep the prior
+                if sc["C"] >= 2 and ctx.rng.random() < 0.5:
+                    # a threshold just above the smallest occupancy: that component has some evidence, but too little to be adapted
+                    n_ = np.asarray(gen.mk_gmm(sc["w"], sc["m"], sc["v"]).acc_stats(sc["X"]).n, dtype=float)
+                    if n_.min() > 1e-6:
+                        sc["map_thr"] = float(1.5 * n_.min())
             add(o_train(sc, kind), {"kind": kind, **sc})
         elif kind == "map_var":
             sc["map_uv"] = True
